@@ -1,6 +1,6 @@
 """C14 — Len reports exactly where an embedded schema, document or enum ends (JSON documents with trailing
 characters allowed; schema and enum scanners are added with their models)."""
-import json
+import json, os
 import vcommon as vc
 import jsonref, jsongen, jsoncheck as jc
 
@@ -88,6 +88,61 @@ def run(ctx):
     judge(ctx, "S x sep x trail", cases)
     bad = [jsongen.mutate(rng, rng.choice(ss)) for _ in range(1500 if quick else 60000)] + list(jsongen.exhaustive(jsongen.ALPHA16, 3 if quick else 4))
     judge_errors(ctx, "malformed", bad)
+    # ---- schema and enum halves, through the API (no Coq model of these scanners yet) ----
+    import jsight as J
+    import check_c18 as E18
+    sep_pool = [x.decode() for x in SEPS]
+    trail_pool = ["x", "GET /a", "TYPE @t", "}", "]", "200", "\"a\"", "{}", "URL /x\n  Path\n", "@t", ",", ":", "e1", "-"]
+    sl, smeta = [], []
+    for _ in range(60 if quick else 3000):
+        w = J.rand_rule_schema(rng, rng.randint(0, 3))
+        stext = J.print_schema(w, rng)
+        closed = stext.rstrip()[-1:] in "}]\""
+        for _ in range(4):
+            sep = rng.choice(sep_pool)
+            if sep == "" and not closed:
+                continue
+            if stext.rstrip()[-1:] not in "}]\"" and "//" in stext.split("\n")[-1] and "\n" not in sep and sep != "":
+                continue          # an inline annotation runs to the end of the line: only a line break ends the schema
+            if "//" in stext.split("\n")[-1] and "\n" not in sep and "\r" not in sep:
+                continue
+            t = rng.choice(trail_pool)
+            sl.append(json.dumps({"schema": stext + sep + t, "ops": [["len"]]}))
+            smeta.append((stext, sep, t))
+    for (stext, sep, t), o in zip(smeta, vc.impl_parallel(["schema"], sl)):
+        r = json.loads(o)[0]
+        ctx.evaluations += 1
+        want = str(len(stext.rstrip(" \t\r\n").encode()))
+        if r != want and len(ctx.violations) < 40:
+            info = {"kind": "schema", "S": stext, "sep": sep, "trail": t, "implementation": r, "expected": want, "direct": sep == ""}
+            ctx.report("schema Len(%r + %r + %r) = %s, the schema ends at %s" % (stext[-50:], sep, t[:15], r, want), "schemalen:" + stext + sep + t, info, case=info)
+    el, emeta = [], []
+    for _ in range(60 if quick else 3000):
+        vals = rng.sample(E18.VALUES, rng.randint(1, 5))
+        etext = E18.enum_text(rng, vals)[0]
+        for _ in range(4):
+            sep = rng.choice(sep_pool)
+            if "//" in etext.split("\n")[-1] and "\n" not in sep and "\r" not in sep:
+                continue
+            t = rng.choice(trail_pool)
+            el.append(json.dumps({"text": etext + sep + t}))
+            emeta.append((etext, sep, t))
+    for (etext, sep, t), o in zip(emeta, vc.impl_parallel(["enumrule"], el)):
+        r = json.loads(o)[1]
+        ctx.evaluations += 1
+        want = str(len(etext.rstrip(" \t\r\n").encode()))
+        if r != want and len(ctx.violations) < 40:
+            info = {"kind": "enum", "S": etext, "sep": sep, "trail": t, "implementation": r, "expected": want, "direct": sep == ""}
+            ctx.report("enum Len(%r + %r + %r) = %s, the enum rule ends at %s" % (etext[-50:], sep, t[:15], r, want), "enumlen:" + etext + sep + t, info, case=info)
+    cj = os.path.join(vc.ROOT, "corpus", "C14", "fixed-schema-len.json")
+    if os.path.exists(cj):
+        for c in json.load(open(cj)):
+            r = json.loads(vc.impl(["schema"], [json.dumps({"schema": c["text"], "ops": [["len"]]})])[0])[0]
+            ctx.evaluations += 1
+            if r != str(c["expect"]):
+                ctx.report("corpus: schema Len(%r) = %s, expected %s" % (c["text"], r, c["expect"]), "schemalen-corpus:" + c["text"], dict(c, implementation=r), case=c)
+    ctx.extra["schema_len_cases"] = len(sl)
+    ctx.extra["enum_len_cases"] = len(el)
     ctx.extra["cases"] = len(cases)
     ctx.samples.append({"S": cases[len(cases) // 2][0].decode("latin1"), "sep": cases[len(cases) // 2][1].decode("latin1"), "trail": cases[len(cases) // 2][2].decode("latin1")})
     jc.proof_tail(ctx, st, ["C14_*"])
